@@ -146,6 +146,61 @@ theorem upstream_ecs_is_clamped (pol : Policy) (client : Option Addr) (opts : Li
   obtain ⟨h1, h2, _, _, _, h6, _⟩ := clamp_le_ceiling_and_zeroes_host_bits pol s f hc
   exact ⟨s, f, hs, ho, h1, h2, h6⟩
 
+/-- **Only one OPT record counts.** Whatever further OPT records a request
+carries in front of the one sdns works with (RFC 6891 forbids them, clients can
+send them: decoded entries and packets the strict parser refuses), their
+options — cookie, unclamped subnet — never reach upstream: what leaves is
+exactly what would leave for the last record alone. -/
+theorem other_opt_records_never_leave (p : Option Policy) (client : Option Addr)
+    (pre : List (List Opt)) (l : List Opt) :
+    setEdns0 p client ((effectiveOpts (pre ++ [l])).getD []) = setEdns0 p client l ∧
+    ∀ o ∈ setEdns0 p client ((effectiveOpts (pre ++ [l])).getD []),
+      ∃ (s : Subnet) (f : Fwd), Opt.ecs s ∈ l ∧ clamp p s = some f ∧ o = Opt.ecs f.toSubnet := by
+  rw [effectiveOpts_append]
+  refine ⟨rfl, fun o ho => ?_⟩
+  exact (upstream_ecs_only_when_allowed p client l o ho).2.1
+
+/-- **What a wire client's IPv4 subnet option becomes.** Whatever address bytes
+followed the 4-byte option header (none, fewer than the netmask needs, all
+four with host bits set, more), the decoder hands sdns a well-formed family-1
+option with netmask and scope within the family; `Clamp` never refuses it and
+forwards exactly `min(netmask, ceiling)` bits of the zero-padded bytes with
+every other bit cleared. -/
+theorem wire_v4_subnet_clamped (pol : Policy) (s d : Subnet) (h : decodeWireSubnet s = some d)
+    (hf : s.family = 1) (hc : pol.fwd4 ≤ 32) :
+    d.family = 1 ∧ d.mask = s.mask ∧ d.mask ≤ 32 ∧ d.scope ≤ 32 ∧
+    clamp (some pol) d = some ⟨.v4, min s.mask pol.fwd4,
+      maskTo 32 (min s.mask pol.fwd4) (bytesVal (padTo 4 (s.addr.getD [])))⟩ := by
+  unfold decodeWireSubnet at h
+  simp only [hf, Nat.succ_ne_zero, if_false, if_true] at h
+  split at h
+  · cases h
+  · rename_i hcond
+    simp only [Bool.or_eq_true, decide_eq_true_eq, not_or, Nat.not_lt] at hcond
+    simp only [Option.some.injEq] at h
+    subst h
+    refine ⟨rfl, rfl, hcond.1, hcond.2, ?_⟩
+    have hl := padTo_length 4 (s.addr.getD [])
+    generalize padTo 4 (s.addr.getD []) = q at hl ⊢
+    match q, hl with
+    | [a, b, c, e], _ =>
+      have hmin : min s.mask pol.fwd4 ≤ 32 := Nat.le_trans (Nat.min_le_right _ _) hc
+      simp [clamp, ipToAddr, isMapped16, List.replicate, Addr.prefix?, Fam.width, Policy.fwdMax, hmin]
+
+/-- family 0 / netmask 0 ("no subnet") decodes, marks the request, and is never forwarded. -/
+theorem wire_family0_never_forwarded (p : Option Policy) (s d : Subnet) (h : decodeWireSubnet s = some d)
+    (hf : s.family = 0) : d.family = 0 ∧ clamp p d = none ∧ ednsMarks (some [Opt.ecs d]) = true := by
+  unfold decodeWireSubnet at h
+  simp only [hf, if_true] at h
+  split at h
+  · simp only [Option.some.injEq] at h
+    subst h
+    refine ⟨rfl, ?_, rfl⟩
+    cases p with
+    | none => rfl
+    | some pol => simp [clamp, ipToAddr, isMapped16, List.replicate]
+  · cases h
+
 /-- **No ECS option is ever returned to a client**, whatever the downstream
 response carried (an upstream's own ECS, the re-attached request OPT with the
 forwarded copy), whatever the writer adds, EDNS or not. -/
@@ -430,6 +485,97 @@ theorem prefetch_admission_respects_ecs_cd (entryScoped requestCD requestHadECS 
   unfold prefetchAdmitsDenial
   rcases h with h | h | h | h <;> simp [h]
 
+/-! ## every reachable cache state -/
+
+/-- what must hold of an entry that sits in the cache under policy `pol` and cap `cap`. -/
+def EntryOK (pol : Policy) (cap : Nat) (e : Entry) : Prop :=
+  ∀ sc, e.scope = some sc →
+    0 < sc.bits ∧ sc.bits ≤ pol.minScope sc.fam ∧ (0 < cap → e.ttl ≤ cap) ∧
+    (∀ i, i < sc.fam.width - sc.bits → sc.addr.testBit i = false)
+
+theorem storeEntry_ok (pol : Policy) (cap : Nat) (cs : Option Prefix) (ro : Option (List Opt))
+    (qid : Nat) (cd : Bool) (ttl ans : Nat) (kind : RespKind) :
+    EntryOK pol cap (storeEntry (some pol) cs ro qid cd ttl cap ans kind) := by
+  intro sc hsc
+  have hcap := (scoped_ttl_capped (some pol) cs ro qid cd ttl cap ans kind).2
+  have hsome : (storeEntry (some pol) cs ro qid cd ttl cap ans kind).scope.isSome = true := by rw [hsc]; rfl
+  have hsc' : storeScope (some pol) cs ro = some sc := hsc
+  cases cs with
+  | none => simp [storeScope] at hsc'
+  | some c =>
+    obtain ⟨h1, _, h3, h4⟩ := stored_scope_bounds pol c ro sc hsc'
+    exact ⟨h1, h3, fun hc => hcap hsome hc, h4⟩
+
+/-- **Invariant of the answer cache over every history.** Starting empty, after
+ANY sequence of response write-backs (any client scope, any authority options,
+any response kind and TTL), background refreshes (of whatever key, with
+whatever answer) and evictions, for ANY key hash: every scoped entry in the
+cache has a non-empty scope no longer than the configured floor, zero host
+bits, and a lifetime within the scoped TTL limit when one is configured. -/
+theorem reachable_store_ok (H : Hash) (pol : Policy) (cap : Nat) (ops : List CacheOp) :
+    ∀ x ∈ runCache H (some pol) cap ops, EntryOK pol cap x.2 := by
+  unfold runCache
+  suffices hgen : ∀ (s : Store), (∀ x ∈ s, EntryOK pol cap x.2) →
+      ∀ x ∈ ops.foldl (cacheStep H (some pol) cap) s, EntryOK pol cap x.2 from
+    hgen [] (by intro x hx; cases hx)
+  induction ops with
+  | nil => intro s hs; exact hs
+  | cons op t ih =>
+    intro s hs
+    simp only [List.foldl_cons]
+    apply ih
+    intro x hx
+    cases op with
+    | answer cs ro qid cd ttl ans kind =>
+      simp only [cacheStep] at hx
+      rcases Store.mem_put hx with rfl | hx
+      · exact storeEntry_ok pol cap cs ro qid cd ttl ans kind
+      · exact hs x hx
+    | refresh key claimed ttl ans =>
+      simp only [cacheStep] at hx
+      cases hg : s.get key with
+      | none => rw [hg] at hx; exact hs x hx
+      | some cur =>
+        rw [hg] at hx
+        simp only at hx
+        split at hx
+        · rename_i hc
+          simp only [Bool.and_eq_true] at hc
+          rcases Store.mem_put hx with rfl | hx
+          · -- a refreshed entry was prefetch-eligible: it carries no scope
+            intro sc hsc
+            have : cur.scope = none := by
+              have := hc.2
+              unfold prefetchEligible at this
+              cases hcs : cur.scope with
+              | none => rfl
+              | some _ => rw [hcs] at this; cases this
+            simp only [refreshEntry] at hsc
+            rw [this] at hsc; cases hsc
+          · exact hs x hx
+        · exact hs x hx
+    | evict key =>
+      simp only [cacheStep] at hx
+      exact hs x (Store.mem_del hx)
+
+/-- **End to end, for every history**: whatever is served out of any reachable
+cache state, to a request with client scope `cs`, belongs to the question and
+CD partition asked; if it is a scoped answer the client's prefix lies inside
+the stored network, and the entry respects floor and scoped TTL limit. -/
+theorem served_from_reachable_store (H : Hash) (pol : Policy) (cap : Nat) (ops : List CacheOp)
+    (qid : Nat) (cd : Bool) (cs : Option Prefix) (e : Entry)
+    (h : serveLookup H (runCache H (some pol) cap ops).get qid cd cs = some e) :
+    e.qid = qid ∧ e.cd = cd ∧ EntryOK pol cap e ∧
+    ∀ sc, e.scope = some sc →
+      ∃ cp, cs = some cp ∧ sc.fam = cp.fam ∧ sc.bits ≤ cp.bits ∧ sc.addr = maskTo cp.fam.width sc.bits cp.addr := by
+  obtain ⟨h1, h2, h3⟩ := scoped_served_inside_scope H _ qid cd cs e h
+  obtain ⟨k, hk⟩ := serveLookup_from_store h
+  obtain ⟨k', hmem⟩ := Store.get_mem hk
+  refine ⟨h1, h2, reachable_store_ok H pol cap ops _ hmem, ?_⟩
+  intro sc hsc
+  obtain ⟨cp, hcp, hf, _, hle, _, ha⟩ := h3 sc hsc
+  exact ⟨cp, hcp, hf, hle, ha⟩
+
 /-! ## background refresh -/
 
 /-- a background refresh only ever happens for unscoped entries and leaves the
@@ -493,6 +639,22 @@ theorem invalid_config_disables (enabled : Bool) (f4 f6 m4 m6 : Nat) (nets : Lis
   · intro client opts; rw [hp]; rfl
   · intro client ro; rw [hp]; rfl
 
+/-- **One configuration, one policy.** The forwarding side (edns) and the keying
+side (cache) hold the same policy for every `[ecs]` block — in particular a
+block only one field of which is invalid (a scope floor, say) leaves NEITHER
+side with a policy: no client subnet leaves sdns and no answer is keyed by
+scope under an invalid configuration. -/
+theorem edns_and_cache_agree (enabled : Bool) (f4 f6 m4 m6 : Nat) (nets : List (Option Prefix)) :
+    ednsPolicy (build enabled f4 f6 m4 m6 nets) = cachePolicy (build enabled f4 f6 m4 m6 nets) ∧
+    ((m4 > 32 ∨ m6 > 128) → ednsPolicy (build enabled f4 f6 m4 m6 nets) = none ∧
+      ∀ client opts, setEdns0 (ednsPolicy (build enabled f4 f6 m4 m6 nets)) client opts = []) := by
+  refine ⟨rfl, fun h => ?_⟩
+  have hh := invalid_config_disables enabled f4 f6 m4 m6 nets
+    (by rcases h with h | h
+        · exact Or.inr (Or.inr (Or.inr (Or.inl h)))
+        · exact Or.inr (Or.inr (Or.inr (Or.inr (Or.inl h)))))
+  exact ⟨hh.1, hh.2.1⟩
+
 /-- what `Build` hands out is always in range: ceilings and floors are between 1 and the family width. -/
 theorem build_ok_in_range (enabled : Bool) (f4 f6 m4 m6 : Nat) (nets : List (Option Prefix)) (pol : Policy)
     (h : build enabled f4 f6 m4 m6 nets = .ok pol) :
@@ -546,6 +708,14 @@ example : replyOptions false (some [.ecs ⟨1, 19, 19, some [10, 1, 0xe0, 0]⟩,
     [.ecs ⟨1, 19, 0, some [10, 1, 0xe0, 0]⟩] [.other 10 "srv"] true = some [.other 10 "srv", .other 11 "srv"] := by decide
 -- refresh of a shared entry queued by an allowed client's hit: its /19 does not go upstream again
 example : refreshForwarded (some { demoPol with nets := [] }) [.ecs ⟨1, 19, 0, some [10, 1, 0xe0, 0]⟩] = [] := by decide
+-- a wire client sends /19 with only three address bytes, host bits set in the last: 10.1.255 → 10.1.224.0/19
+example : decodeWireSubnet ⟨1, 19, 0, some [10, 1, 255]⟩ =
+    some ⟨1, 19, 0, some [0, 0, 0, 0, 0, 0, 0, 0, 0, 0, 255, 255, 10, 1, 255, 0]⟩ ∧
+    clamp (some demoPol) ⟨1, 19, 0, some [0, 0, 0, 0, 0, 0, 0, 0, 0, 0, 255, 255, 10, 1, 255, 0]⟩ = some ⟨.v4, 19, 0x0a01e000⟩ := by decide
+example : decodeWireSubnet ⟨1, 33, 0, some [10, 1, 255, 255]⟩ = none := by decide
+-- two OPT records: the first one's cookie and /32 vanish
+example : setEdns0 (some demoPol) (some ⟨.v4, 0x0a010203⟩)
+    ((effectiveOpts [[.other 10 "0011223344556677", .ecs ⟨1, 32, 0, some [10, 1, 2, 3]⟩], [.other 3 "x"]]).getD []) = [] := by decide
 -- `dig +subnet=0`: family 0, netmask 0 — never forwarded, always marks
 example : ednsMarks (some [.ecs ⟨0, 0, 0, some [0, 0, 0, 0, 0, 0, 0, 0, 0, 0, 255, 255, 0, 0, 0, 0]⟩]) = true ∧
     setEdns0 (some { demoPol with nets := [] }) (some ⟨.v4, 0x0a010203⟩)
@@ -564,10 +734,21 @@ example : demoEntry.scope = some ⟨.v4, 0x0a01e000, 19⟩ ∧ demoEntry.ttl = 3
 example : serveLookup demoH demoStore 7 false (some ⟨.v4, 0x0a01e000, 19⟩) = some demoEntry := by decide
 example : serveLookup demoH demoStore 7 false (some ⟨.v4, 0x0a01c000, 19⟩) = none := by decide
 example : serveLookup demoH demoStore 7 false none = none := by decide
+-- a history: scoped write-back, a refresh attempt on the scoped key (refused), a shared write-back, its refresh
+def demoOps : List CacheOp :=
+  [.answer (some ⟨.v4, 0x0a01e000, 19⟩) (some [.ecs ⟨1, 19, 24, some [10, 1, 0xe2, 0]⟩]) 7 false 3600 42 .nodata,
+   .refresh (demoH 7 false (some ⟨.v4, 0x0a01e000, 19⟩)) 42 86400 43,
+   .answer none none 7 false 3600 44 .success,
+   .refresh (demoH 7 false none) 44 86400 45]
+example : (runCache demoH (some demoPol) 300 demoOps).map (fun x => (x.2.ans, x.2.ttl, x.2.scope.isSome)) =
+    [(45, 86400, false), (42, 300, true)] := by decide
+example : serveLookup demoH (runCache demoH (some demoPol) 300 demoOps).get 7 false (some ⟨.v4, 0x0a01e000, 19⟩)
+    = some ⟨7, false, some ⟨.v4, 0x0a01e000, 19⟩, 300, 42⟩ := by decide
 -- an ECS client whose option was stripped by policy still bypasses, two chases deep
 example : consultsCut (descend (rootView true false false false) [(false, false, false), (false, false, false)]) = false := by decide
 example : consultsCut (rootView false false false false) = true := by decide
 example : admitsDenial (rootView false false false false) false = true := by decide
+example : ednsPolicy (build true 24 56 33 0 []) = none ∧ cachePolicy (build true 24 56 0 129 []) = none := by decide
 example : (build true 33 0 0 0 []).policy = none ∧ (build true 0 0 0 0 [some ⟨.v4, 0, 0⟩, none]).policy = none := by decide
 example : (build true 0 0 0 0 []).policy = some ⟨true, 24, 56, [], 24, 56⟩ := by decide
 
